@@ -103,6 +103,30 @@ func genLocks(repo string) (string, error) {
 		calls      []string
 	}
 	var methods []method
+	// wholeBody: for every method of *Buffer / *Registry (exported or not), the mutex fields of the
+	// receiver that the body locks in its leading `x.M.Lock(); defer x.M.Unlock()` pairs, i.e. the
+	// mutexes held from the first statement to the return: (receiver type, method, mutex field)
+	type bodyLock struct{ recv, name, mutex string }
+	var wholeBody []bodyLock
+	leadingLocks := func(body *ast.BlockStmt, recvName string) []string {
+		var out []string
+		if body == nil || recvName == "" {
+			return nil
+		}
+		for i := 0; i+1 < len(body.List); i += 2 {
+			lock := exprString(body.List[i])
+			unlock := exprString(body.List[i+1])
+			if !strings.HasPrefix(lock, recvName+".") || !strings.HasSuffix(lock, ".Lock()") {
+				break
+			}
+			field := strings.TrimSuffix(strings.TrimPrefix(lock, recvName+"."), ".Lock()")
+			if field == "" || strings.ContainsAny(field, ".()[] ") || unlock != "defer "+recvName+"."+field+".Unlock()" {
+				break
+			}
+			out = append(out, field)
+		}
+		return out
+	}
 
 	// locksAtEntry reports the mutexes a body holds from its first statement to its end.
 	locksAtEntry := func(body *ast.BlockStmt) []string {
@@ -265,6 +289,11 @@ func genLocks(repo string) (string, error) {
 				}
 				return true
 			})
+			if recv != "" && len(fd.Recv.List[0].Names) == 1 {
+				for _, mu := range leadingLocks(fd.Body, fd.Recv.List[0].Names[0].Name) {
+					wholeBody = append(wholeBody, bodyLock{recv, fd.Name.Name, mu})
+				}
+			}
 			if recv == "" || !ast.IsExported(fd.Name.Name) {
 				continue
 			}
@@ -383,6 +412,23 @@ func genLocks(repo string) (string, error) {
 	b.WriteString("]\n\n")
 	b.WriteString("/-- exported methods that return to their caller a function that reads the registry's maps lazily, outside the registry mutex -/\n")
 	fmt.Fprintf(&b, "def lazyStateLeaks : List String := %s\n", leanStrList(dedupStrings(leaks)))
+	// sorted by receiver and method; the mutexes of one method stay in acquisition order
+	sort.SliceStable(wholeBody, func(i, j int) bool {
+		if wholeBody[i].recv != wholeBody[j].recv {
+			return wholeBody[i].recv < wholeBody[j].recv
+		}
+		return wholeBody[i].name < wholeBody[j].name
+	})
+	b.WriteString("\n/-- mutexes of the receiver held for the WHOLE body of a method of Buffer / Registry (locked by the leading `x.M.Lock(); defer x.M.Unlock()` pairs, in acquisition order): (receiver type, method, mutex field) -/\n")
+	b.WriteString("def wholeBodyLocks : List (String × String × String) := [\n")
+	for i, w := range wholeBody {
+		sep := ","
+		if i == len(wholeBody)-1 {
+			sep = ""
+		}
+		fmt.Fprintf(&b, "  (%s, %s, %s)%s\n", leanStr(w.recv), leanStr(w.name), leanStr(w.mutex), sep)
+	}
+	b.WriteString("]\n")
 	b.WriteString("\nend OciModel.Generated.Locks\n")
 	return b.String(), nil
 }
